@@ -7,7 +7,7 @@ use crate::explore::Report;
 use crate::Args;
 
 pub fn names() -> Vec<&'static str> {
-    vec!["keys", "reuse", "modes", "batch", "removal", "disable", "postaction", "lifecycle", "faults", "idle", "pa-table", "timers", "wait", "ping-seq", "chan-seq", "ping-mt", "chan-mt", "exec-mt", "wakeup", "run", "block_on"]
+    vec!["keys", "reuse", "modes", "batch", "removal", "disable", "epoll", "exec-seq", "postaction", "lifecycle", "faults", "idle", "pa-table", "timers", "wait", "ping-seq", "chan-seq", "ping-mt", "chan-mt", "exec-mt", "wakeup", "run", "block_on"]
 }
 
 pub fn dispatch(args: &Args) -> Option<Report> {
